@@ -12,6 +12,98 @@ import json
 import textwrap
 
 
+def observe_always_pushed(montepy):
+    """-> (sorted attributes, "") or (None, why): whose push_to_cells runs when a problem without data-level cell
+    modifiers is read"""
+    import os
+    import shutil
+    import tempfile
+    import warnings
+
+    calls = []
+    saved = []
+    tmp = tempfile.mkdtemp()
+    try:
+        for cls, (attr, _) in montepy.Cell._INPUTS_TO_PROPERTY.items():
+            orig = cls.__dict__.get("push_to_cells")
+            inherited = orig is None
+            func = getattr(cls, "push_to_cells")
+
+            def recorder(self, *a, _f=func, _attr=attr, **k):
+                calls.append(_attr)
+                return _f(self, *a, **k)
+
+            saved.append((cls, inherited, orig))
+            cls.push_to_cells = recorder
+        path = os.path.join(tmp, "probe.imcnp")
+        with open(path, "w") as fh:
+            fh.write("probe\n1 0 -1\n\n1 so 1\n\nnps 1\n")
+        with warnings.catch_warnings():
+            warnings.simplefilter("ignore")
+            montepy.read_input(path)
+        return sorted(set(calls)), ""
+    except Exception as e:  # noqa: BLE001
+        return None, f"not observed: {type(e).__name__}: {e}"[:200]
+    finally:
+        for cls, inherited, orig in saved:
+            if inherited:
+                try:
+                    delattr(cls, "push_to_cells")
+                except Exception:  # noqa: BLE001
+                    pass
+            else:
+                cls.push_to_cells = orig
+        shutil.rmtree(tmp, ignore_errors=True)
+
+
+def always_update_names(module, name="inputs_to_always_update"):
+    """-> (sorted attribute names, note): the strings of the collection assigned to `name` anywhere in the module"""
+    try:
+        tree = ast.parse(textwrap.dedent(inspect.getsource(module)))
+    except Exception as e:  # noqa: BLE001
+        return [], f"source not available: {type(e).__name__}"
+    assigns = {}
+    for node in ast.walk(tree):
+        targets, value = [], None
+        if isinstance(node, ast.Assign):
+            targets, value = node.targets, node.value
+        elif isinstance(node, ast.AnnAssign) and node.value is not None:
+            targets, value = [node.target], node.value
+        for t in targets:
+            key = t.id if isinstance(t, ast.Name) else t.attr if isinstance(t, ast.Attribute) else None
+            if key:
+                assigns.setdefault(key, []).append(value)
+
+    def strings(value, depth=0):
+        if depth > 5:
+            return None
+        if isinstance(value, ast.Call) and isinstance(value.func, ast.Name) \
+                and value.func.id in ("set", "frozenset", "tuple", "list", "sorted") and not value.keywords:
+            return [] if not value.args else strings(value.args[0], depth + 1) if len(value.args) == 1 else None
+        if isinstance(value, (ast.Name, ast.Attribute)):
+            key = value.id if isinstance(value, ast.Name) else value.attr
+            found = [strings(v, depth + 1) for v in assigns.get(key, [])]
+            return found[0] if len(found) == 1 else None
+        try:
+            got = ast.literal_eval(value)
+        except Exception:  # noqa: BLE001
+            return None
+        if isinstance(got, (set, frozenset, tuple, list)) and all(isinstance(x, str) for x in got):
+            return list(got)
+        return None
+
+    values = assigns.get(name, [])
+    if not values:
+        return [], f"no assignment to {name} in {module.__name__}"
+    out = set()
+    for v in values:
+        got = strings(v)
+        if got is None:
+            return [], f"an assignment to {name} in {module.__name__} is not a collection of string constants"
+        out.update(got)
+    return sorted(out), ""
+
+
 def generate(write):
     import montepy
     from montepy._cell_data_control import CellDataPrintController
@@ -21,12 +113,17 @@ def generate(write):
     for cls, (attr, cant_repeat) in montepy.Cell._INPUTS_TO_PROPERTY.items():
         prefix = cls._class_prefix()
         rows.append((cls.__name__, attr, bool(cant_repeat), prefix, bool(ctl[prefix])))
-    # the set literal `inputs_to_always_update` of Cells.update_pointers (from the AST)
-    always = []
-    src = textwrap.dedent(inspect.getsource(montepy.cells.Cells.update_pointers))
-    for node in ast.walk(ast.parse(src)):
-        if isinstance(node, ast.Assign) and getattr(node.targets[0], "id", "") == "inputs_to_always_update":
-            always = sorted(ast.literal_eval(node.value))
+    # the per-cell attributes whose data-level object is pushed to the cells even when no input of the class was read
+    # (`inputs_to_always_update` of cells.py).  Round 7: OBSERVED (a file without any data-level cell modifier is
+    # read while every class's push_to_cells is recorded); the first version took the set literal from the AST of
+    # Cells.update_pointers, where the name is only a left-over, and raised on a right-hand side that is not a
+    # literal.  If the observation fails the assignment is looked for in the whole module (any function, the class
+    # body, the module; a name on the right-hand side is followed; set()/frozenset()/... are looked through); an
+    # unexpected shape gives the empty list and a note, never an exception of the translator.  No theorem consumes it.
+    always, always_note = observe_always_pushed(montepy)
+    if always is None:
+        always, note2 = always_update_names(montepy.cells)
+        always_note = always_note + "; " + note2 if note2 else always_note + "; taken from the source text"
     body = "namespace MontePyVerif.Gen\n\n"
     body += "/-- `cell.py: Cell._INPUTS_TO_PROPERTY` in dict order: (class, attribute, cant_repeat, `_class_prefix()`,\n"
     body += "    `CellDataPrintController()[prefix]` when nothing was set) -/\n"
@@ -34,12 +131,18 @@ def generate(write):
         f"({json.dumps(n)}, {json.dumps(a)}, {'true' if c else 'false'}, {json.dumps(p)}, {'true' if d else 'false'})"
         for n, a, c, p, d in rows
     ) + "]\n"
-    body += "/-- `cells.py: Cells.update_pointers: inputs_to_always_update` -/\n"
+    body += "/-- `cells.py: inputs_to_always_update`: attributes pushed to the cells although no input of the class was read (observed) -/\n"
     body += "def cellDataAlwaysUpdate : List String := [" + ", ".join(json.dumps(a) for a in always) + "]\n"
+    if always_note:
+        body += "-- not read: " + json.dumps(always_note) + "\n"
     # the keyword table of the lexer that reads cell cards: the prefix of every parameter a cell card can carry
-    from montepy.input_parser.tokens import CellLexer
+    try:
+        from montepy.input_parser.tokens import CellLexer
 
-    kws = sorted(str(k).lower() for k in CellLexer._KEYWORDS)
+        kws = sorted(str(k).lower() for k in CellLexer._KEYWORDS)
+    except Exception as e:  # noqa: BLE001  (unknown: only C09_cell_keywords fails, not the translator)
+        kws = []
+        body += "-- not read: " + json.dumps(f"CellLexer._KEYWORDS: {type(e).__name__}: {e}"[:200]) + "\n"
     body += "/-- `input_parser/tokens.py: CellLexer._KEYWORDS` (sorted): every word that can be the prefix of a cell parameter -/\n"
     body += "def cellLexerKeywords : List String := [" + ", ".join(json.dumps(k) for k in kws) + "]\n"
     body += "\nend MontePyVerif.Gen\n"
